@@ -39,7 +39,7 @@ def has_initial_stocks(ops):
     for op in ops:
         if op['op'] == 'AddInitialCondition':
             return True
-        if op['op'] in ('GoldStandardGovernment', 'GoldStandardCentralBank'):
+        if op['op'] in ('GoldStandardGovernment', 'GoldStandardCentralBank', 'SetGoldPurchases'):
             return True
         if op['op'] == 'Builder' and op.get('book_exo'):
             return True
@@ -145,19 +145,24 @@ def build_ledger(sess, ops, mh, d):
     k is sign * series[k] * (rate_num[k]/rate_den[k] if rates given)."""
     led = {sh: [] for sh in d.order if d.sectors[sh]['hasF'] and R.zone_of(d, sh)[0] == mh}
     problems = []
+    income = {}
+    build_ledger.last_income = income
 
-    def add(sh, sign, ser, label, num=None, den=None):
+    def add(sh, sign, ser, label, num=None, den=None, inc=True):
         if sh not in led:
             return
         if ser is None:
             problems.append('missing series for %s on %s' % (label, sh))
             return
         led[sh].append((sign, ser, label, num, den))
+        income[(sh, len(led[sh]) - 1)] = inc
 
     # goods and labour markets
     for mk in R.goods_markets(d, mh):
         for sh, var in R.demanders(d, mk):
-            add(sh, -1.0, sector_series(sess, mh, sh, var), 'demand:' + var)
+            sd = d.sectors[sh]
+            excluded = sd['cls'] in R.HOUSEHOLDS and var == 'DEM_' + (sd['op'].get('good') or 'GOOD')
+            add(sh, -1.0, sector_series(sess, mh, sh, var), 'demand:' + var, inc=not excluded)
         sup = R.market_suppliers(d, mk)
         if sup is None:
             problems.append('no/ambiguous supplier for ' + mk)
@@ -171,7 +176,7 @@ def build_ledger(sess, ops, mh, d):
         z = R.zone_of(d, tf)
         payers = [s for s in d.order if R.zone_of(d, s) == z and d.sectors[s]['taxable']]
         for sh in payers:
-            add(sh, -1.0, sector_series(sess, mh, sh, 'T'), 'tax-paid')
+            add(sh, -1.0, sector_series(sess, mh, sh, 'T'), 'tax-paid', inc=False)
         paid_to = d.sectors[tf]['op'].get('paid_to') or 'GOV'
         govs = [s for s in d.order if R.zone_of(d, s) == z and d.sectors[s]['code'] == paid_to]
         if len(govs) == 1:
@@ -179,13 +184,17 @@ def build_ledger(sess, ops, mh, d):
         else:
             problems.append('tax recipient not unique')
     # dividends
+    div_recipients = set()
     for bs in [s for s in d.order if d.sectors[s]['cls'] == 'FixedMarginBusiness' and R.zone_of(d, s)[0] == mh]:
         ctry = d.sectors[bs]['country']
         recips = [s for s in d.order if d.sectors[s]['country'] == ctry and
                   (d.sectors[s]['cls'] == 'Capitalists' or 'DIV' in d.sectors[s]['user_vars'])]
         if recips:
-            add(bs, -1.0, sector_series(sess, mh, bs, 'DIV'), 'dividend-paid')
-            add(recips[0], +1.0, sector_series(sess, mh, recips[0], 'DIV'), 'dividend-received')
+            add(bs, -1.0, sector_series(sess, mh, bs, 'DIV'), 'dividend-paid', inc=False)
+            if recips[0] not in div_recipients:
+                # one received flow per recipient: its DIV is the sum of the profits of all paying businesses
+                div_recipients.add(recips[0])
+                add(recips[0], +1.0, sector_series(sess, mh, recips[0], 'DIV'), 'dividend-received')
     # deposit interest
     for dm in [s for s in d.order if d.sectors[s]['cls'] == 'DepositMarket' and R.zone_of(d, s)[0] == mh]:
         z = R.zone_of(d, dm)
@@ -212,19 +221,22 @@ def build_ledger(sess, ops, mh, d):
         if tre is not None:
             add(tre, +1.0, ser, 'remittance-received')
     # registered cash flows
-    for (m, src, tgt, var, _a, _b) in d.registered:
+    for (m, src, tgt, var, inc_a, inc_b) in d.registered:
         if m != mh:
             continue
         ser = sector_series(sess, mh, src, var)
-        add(src, -1.0, ser, 'registered-out:' + var)
+        add(src, -1.0, ser, 'registered-out:' + var, inc=inc_a)
         zs, zt = R.zone_of(d, src), R.zone_of(d, tgt)
         if zs == zt:
-            add(tgt, +1.0, ser, 'registered-in:' + var)
+            add(tgt, +1.0, ser, 'registered-in:' + var, inc=inc_b)
         else:
-            add(tgt, +1.0, ser, 'registered-in-fx:' + var, xr_series(sess, mh, zs[1]), xr_series(sess, mh, zt[1]))
+            add(tgt, +1.0, ser, 'registered-in-fx:' + var, xr_series(sess, mh, zs[1]), xr_series(sess, mh, zt[1]), inc=inc_b)
     # gold purchases
     for g in [s for s in d.order if d.sectors[s]['cls'] in ('GoldStandardGovernment', 'GoldStandardCentralBank') and R.zone_of(d, s)[0] == mh]:
-        add(g, -1.0, sector_series(sess, mh, g, 'GOLDPURCHASES'), 'gold-purchases')
+        add(g, -1.0, sector_series(sess, mh, g, 'GOLDPURCHASES'), 'gold-purchases', inc=False)
+    for sh, var in d.gold_manual:
+        if R.zone_of(d, sh)[0] == mh:
+            add(sh, -1.0, sector_series(sess, mh, sh, var), 'gold-purchases:' + var, inc=False)
     return led, problems
 
 
@@ -252,6 +264,40 @@ def ledger(sess, ops, mh, d):
             out.append(Disc('C01', 'sector-ledger-mismatch', 'sector-ledger-mismatch', abs(got - want), scale_of(ts, k),
                             sector=sh, cls=d.sectors[sh]['cls'], code=R.full_code(d, sh), k=k, delta_F=got,
                             declared_flows=want, flows=[(s, l, ser[k]) for s, ser, l, _n, _d in flows]))
+    return out, []
+
+
+def income_ledger(sess, ops, mh, d):
+    """C06 at model level: a sector's pre-tax income INC equals the signed sum of exactly those declared flows that
+    are income for it (household consumption, taxes paid, dividends paid, gold purchases and flows registered with
+    the income flag off are not)."""
+    out = []
+    if d.unsupported:
+        return out, ['unsupported ops']
+    led, problems = build_ledger(sess, ops, mh, d)
+    income = build_ledger.last_income
+    if problems:
+        return out, problems
+    ts = _ts(sess, mh)
+    T = horizon(sess, mh)
+    for sh, flows in led.items():
+        INC = sector_series(sess, mh, sh, 'INC')
+        if INC is None:
+            continue
+        # repeated registrations of one amount variable with different income flags are order dependent in their
+        # merge: still well defined (coefficients add up per flag)
+        for k in range(1, T + 1):
+            want = 0.0
+            for i, (sign, ser, label, num, den) in enumerate(flows):
+                if not income.get((sh, i), True):
+                    continue
+                v = ser[k]
+                if num is not None and den is not None:
+                    v = v * num[k] / den[k]
+                want += sign * v
+            out.append(Disc('C06', 'income-ledger-mismatch', 'income-ledger-mismatch', abs(INC[k] - want), scale_of(ts, k),
+                            sector=sh, cls=d.sectors[sh]['cls'], code=R.full_code(d, sh), k=k, INC=INC[k], declared_income=want,
+                            flows=[(s_, l, income.get((sh, i), True)) for i, (s_, _ser, l, _n, _d) in enumerate(flows)]))
     return out, []
 
 
@@ -394,7 +440,7 @@ def fx(sess, ops, mh, d):
             nets[cur] = (ts.get(fxs.GetVariableName('NET_' + cur)), 1.0 if cur == 'NUMERAIRE' else xr_series(sess, mh, cur))
         except Exception:   # noqa
             notes.append('NET series missing for ' + cur)
-    has_gold = any(op['op'] in ('GoldStandardGovernment', 'GoldStandardCentralBank') for op in ops)
+    has_gold = any(op['op'] in ('GoldStandardGovernment', 'GoldStandardCentralBank', 'SetGoldPurchases') for op in ops)
     for k in range(1, T + 1):
         tot = 0.0
         ok = True
@@ -447,6 +493,14 @@ def fx(sess, ops, mh, d):
             notes.append('gold series missing')
             return out, notes
         sends.setdefault(R.zone_of(d, g)[1], []).append((+1.0, ser, None, None))
+    for sh, var in d.gold_manual:
+        if R.zone_of(d, sh)[0] != mh:
+            continue
+        ser = sector_series(sess, mh, sh, var)
+        if ser is None:
+            notes.append('gold series missing')
+            return out, notes
+        sends.setdefault(R.zone_of(d, sh)[1], []).append((+1.0, ser, None, None))
     for cur, (net, rate) in nets.items():
         if cur == 'NUMERAIRE' or net is None:
             continue
